@@ -117,10 +117,10 @@ def gen_history(ctx, weighted):
             present.remove(it)
         elif not wide:
             ops.append(["cho"])
-    return ops
+    return ops, wide
 
 
-def run_impl(ctx, weighted, ops, law_depth=None):
+def run_impl(ctx, weighted, ops, law_depth=None, final_law=None):
     """returns (wire ops with draws filled in, outputs, predicate failures, law failures)"""
     import EoN.simulation as sim
     ld = sim._ListDict_(weighted=weighted)
@@ -142,24 +142,26 @@ def run_impl(ctx, weighted, ops, law_depth=None):
             else:
                 if len(ld) == 0 or (weighted and all(ld.weight[x] == 0 for x in ld.items)):
                     continue
-                tr = rngmod.TapeRandom(rng=ctx.rng)
-                with rngmod.scripted(tr):
-                    c = ld.choose_random()
-                draws, i = [], 0
-                L = tr.log
-                while i < len(L):
-                    if weighted:
-                        draws.append([L[i][1], L[i + 1][1]]); i += 2
-                    else:
-                        draws.append([L[i][1], "0"]); i += 1
-                wire.append(["cho", draws])
-                outs.append(dict(chosen=canon_item(c), rounds=len(draws)))
-                if weighted and fr(ld.weight[c]) == 0:
-                    pred_fail.append("zero-weight candidate selected")
+                # the law first: it must not depend on how many draws one selection consumes
                 if law_depth and len(ld) <= 4:
                     bad, agg = selection_law(ld, law_depth)
                     if bad:
                         law_fail.append([[list(k), float(p), float(s), float(cut)] for k, p, s, cut in bad])
+                tr = rngmod.TapeRandom(rng=ctx.rng)
+                with rngmod.scripted(tr):
+                    c = ld.choose_random()
+                # one round = a `choice` call and, when weighted, the `random()` call that follows it (parsed by kind:
+                # an implementation that consumes draws differently shows up as a disagreement, not as a harness crash)
+                draws = []
+                for kind, val in tr.log:
+                    if kind == "c":
+                        draws.append([val, "0"])
+                    elif kind == "u" and draws:
+                        draws[-1][1] = val
+                wire.append(["cho", draws])
+                outs.append(dict(chosen=canon_item(c), rounds=len(draws)))
+                if weighted and fr(ld.weight[c]) == 0:
+                    pred_fail.append("zero-weight candidate selected")
         except Exception as e:  # implementation raised
             outs.append(dict(err=type(e).__name__))
             break
@@ -167,6 +169,17 @@ def run_impl(ctx, weighted, ops, law_depth=None):
         if pf:
             pred_fail.extend(pf)
             break
+    # selection law in the state the history ends in (every history: stale bookkeeping left behind by an earlier
+    # removal / replacement only matters at the next selection)
+    if final_law and not pred_fail and 0 < len(ld) <= 5 and not (outs and "err" in outs[-1]):
+        try:
+            # (wide-range histories are excluded by the caller: their acceptance thresholds w/max are not exact floats)
+            if not weighted or (all(fr(ld.weight[x]) >= 0 for x in ld.items) and any(fr(ld.weight[x]) > 0 for x in ld.items)):
+                bad, agg = selection_law(ld, final_law)
+                if bad:
+                    law_fail.append([[list(k), float(p), float(s), float(cut)] for k, p, s, cut in bad])
+        except symu.Budget:
+            pass
     return wire, outs, pred_fail, law_fail
 
 
@@ -228,6 +241,9 @@ def captured_logs(ctx, n_runs):
                     fn(G, 1.0, 0.5, initial_infecteds=infs, transmission_weight="w", recovery_weight="r", tmax=6, **kw)
             except ZeroDivisionError:
                 pass
+            except rngmod.TapeError as e:
+                ctx.disagreement("rng-proxy", dict(entry=fn.__name__, error=str(e)))
+                break
     finally:
         sim._ListDict_ = old
     return [l for l in logs if l]
@@ -239,9 +255,9 @@ def run(ctx):
     n = ctx.scale(2000, 20000)
     for k in range(n):
         weighted = ctx.rng.random() < 0.8
-        ops = gen_history(ctx, weighted)
+        ops, wide = gen_history(ctx, weighted)
         law_depth = 12 if (k % ctx.scale(10, 4) == 0) else None
-        wire, outs, pred_fail, law_fail = run_impl(ctx, weighted, ops, law_depth)
+        wire, outs, pred_fail, law_fail = run_impl(ctx, weighted, ops, law_depth, final_law=None if wide else 10)
         ctx.count("weighted" if weighted else "unweighted")
         for o in wire:
             ctx.count("op:" + o[0])
